@@ -12,11 +12,18 @@ from ..mon.client import call
 from ..mon import hooks
 from ..mon.sysmon import StepBudgetExceeded
 
+from . import history as HIST
+
 ID = "C07"
 PROBES = ("raise", "lines", "steps")
 NAMES = ["", "xx", "name", "sid", "nosuch", "1a", "a b", "LN", "ID", "VN", "TS", "sequence", "from_segment", "items",
-         "slen", "overlap", "x", "xyz", "record_type", "field1", "*", "A", "é", "co", "\t", "a\nb"]
-VALUES = ["", "*", "1", "-1", "a b", "a\tb", "a\nb", "é", "{", "[1", "1,2", "A+", "1M", "zz", " ", "+", "0$", "$"]
+         "slen", "overlap", "x", "xyz", "record_type", "field1", "*", "A", "é", "co", "\t", "a\nb",
+         # the field names of every record type (edits of connected lines, then removals)
+         "external", "sid1", "sid2", "eid", "gid", "oid", "uid", "path_name", "segment_names", "overlaps", "beg1", "end1",
+         "beg2", "end2", "alignment", "disp", "var", "from_orient", "to_segment", "to_orient", "pos", "s_beg", "s_end",
+         "f_beg", "f_end", "KC", "RC", "container", "contained"]
+VALUES = ["", "*", "1", "-1", "a b", "a\tb", "a\nb", "é", "{", "[1", "1,2", "A+", "1M", "zz", " ", "+", "0$", "$",
+          "read9+", "x-", "A", "5", "10$", "A+ B-", "A+,B-"]
 _tmp = None
 
 
@@ -24,6 +31,7 @@ def setup(ctx):
     global _tmp
     _tmp = tempfile.mkdtemp(prefix="verif-c07-")
     hooks.RATE = 25
+    HIST.PROBE_RATE = 0.3
     ctx.max_steps_per_byte = 0.0
     ctx.max_steps = 0
 
@@ -45,7 +53,14 @@ def cases(rng, tier, shard, nshards):
         elif r < 0.85:
             yield dict(cfg, k="doc", lines=HG.hostile_doc(rng), entry=rng.choice(["str", "list", "file", "add"]),
                        seed=rng.getrandbits(32))
-        elif r < 0.93:
+        elif r < 0.90:
+            # histories of API calls with valid and invalid arguments (additions, removals,
+            # renames, edits of tags and of the fields of connected lines, probes)
+            c = HIST.gen_history(rng, nsteps=rng.randint(4, 16), failing=0.35, fanout=rng.random() < 0.5,
+                                 tags=rng.random() < 0.3)
+            c["k"] = "history"
+            yield c
+        elif r < 0.95:
             d = G.gen_doc(rng, canonical=rng.random() < 0.5)
             yield dict(cfg, k="doc", lines=d.lines(), entry=rng.choice(["str", "list", "file", "add"]),
                        seed=rng.getrandbits(32), version=rng.choice([None, d.version]))
@@ -129,8 +144,17 @@ def poke_gfa(ctx, rng, g, nbytes):
         ids += [x for x in r.value if isinstance(x, str)][:5]
     for _ in range(8):
         i = rng.choice(ids)
-        op = rng.randrange(12)
-        if op == 10:
+        op = rng.randrange(14)
+        if op >= 12:
+            # removal of a line instance obtained from the Gfa (possibly edited before)
+            r = guarded(ctx, "gfa.lines", nbytes, lambda: [l for l in g.lines if l.record_type != "H"])
+            if r is not None and r.ok and r.value:
+                l = rng.choice(r.value)
+                if op == 12:
+                    guarded(ctx, "gfa.rm(line)", nbytes, g.rm, l)
+                else:
+                    guarded(ctx, "line.disconnect", nbytes, l.disconnect)
+        elif op == 10:
             guarded(ctx, "gfa.select(name)", nbytes, g.select, {"name": i})
         elif op == 11:
             guarded(ctx, "gfa.fragments_for_external", nbytes, g.fragments_for_external, i)
@@ -164,6 +188,11 @@ def run(case, ctx):
     import random
     k = case["k"]
     before_sites = len(ctx.probes.raise_sites)
+    if k == "history":
+        # every call goes through mon.client.call: a foreign exception is a C07 violation here
+        HIST.run_history(case, ctx, compare_every=False)
+        ctx.count("histories")
+        return
     if k == "cli":
         return run_cli(case, ctx)
     rng = random.Random(case["seed"])
